@@ -28,9 +28,22 @@ TagSiblings == { <<66, 1, 0>>, <<130, 1, 2>>, <<10>>, <<97, 97>>, <<249, 60, 0>>
 TagSibInputs == { <<130>> \o t \o x \o y : t \in TagHeads, x \in TagContents, y \in TagSiblings }
                 \cup { <<159>> \o t \o x \o y \o <<255>> : t \in TagHeads, x \in TagContents, y \in TagSiblings }
                 \cup { <<161, 97, 97>> \o t \o x : t \in TagHeads, x \in TagContents } \cup { <<162, 97, 97>> \o t \o x \o <<97, 98>> \o y : t \in TagHeads, x \in TagContents, y \in TagSiblings }
+\* TokMode "sref" (CBOR): string references across nested namespaces (tags 256 / 25, cbor.schmorp.de/stringref): an inner namespace around a
+\* definite or indefinite container has its own table, and when it closes the references of the enclosing namespace count on from where they were
+SA == <<99, 97, 97, 97>>  SB == <<99, 98, 98, 98>>  SC == <<99, 99, 99, 99>>  SD == <<99, 100, 100, 100>>      \* "aaa" "bbb" "ccc" "ddd"
+Ref(i) == <<216, 25, i>>
+NS == <<217, 1, 0>>
+Inners == { <<191>> \o SB \o SC \o <<255>>, <<161>> \o SB \o SC, <<191>> \o SB \o Ref(0) \o <<255>>, <<161>> \o SB \o Ref(0), <<191, 255>>, <<160>>,
+            <<159>> \o SB \o Ref(0) \o <<255>>, <<130>> \o SB \o Ref(0), <<159, 255>>, <<128>>, <<162>> \o SB \o SC \o SC \o Ref(1), <<191>> \o SB \o SC \o SC \o Ref(0) \o <<255>> }
+Tails == { Ref(0), SD \o Ref(1), SD \o Ref(0), Ref(0) \o SD \o Ref(1) }
+ItemsOf(t) == IF t = Ref(0) THEN 1 ELSE IF t = Ref(0) \o SD \o Ref(1) THEN 3 ELSE 2
+SrefInputs == { NS \o <<128 + 2 + ItemsOf(t)>> \o SA \o NS \o inn \o t : inn \in Inners, t \in Tails }
+              \cup { NS \o <<159>> \o SA \o NS \o inn \o t \o <<255>> : inn \in Inners, t \in Tails }
+              \cup { NS \o <<128 + 2 + ItemsOf(t)>> \o SA \o inn \o t : inn \in Inners, t \in {Ref(0)} }                 \* (no inner namespace: one table)
 Init == bs = <<>> /\ n = 0
 Next == /\ n < MaxLen /\ n' = n + 1
-        /\ IF TokMode = "tagsib" THEN (n = 0 /\ bs' \in TagSibInputs)
+        /\ IF TokMode = "sref" THEN (n = 0 /\ bs' \in SrefInputs)
+           ELSE IF TokMode = "tagsib" THEN (n = 0 /\ bs' \in TagSibInputs)
            ELSE IF TokMode = "rep" THEN (n = 0 /\ bs' \in (CASE Format = "cbor" -> CborRepInputs [] Format = "msgpack" -> MsgpackRepInputs
                                                        [] Format = "ubjson" -> UbjsonRepInputs [] Format = "bson" -> BsonRepInputs))
            ELSE IF TokMode = "tok" THEN \E t \in (IF n < ExhLen THEN AllToks ELSE SmallToks) : bs' = bs \o t
@@ -47,8 +60,8 @@ Tagged(v) == CASE v[1] = "tag" -> TRUE
 \* vd: verdict is compared; pv: value is compared
 Case == [f |-> Format, b |-> bs, ok |-> Ok,
          vd |-> (~Ok \/ (~Tagged(R[2]) /\ ~Loose(R[2]))),
-         pv |-> (Ok /\ Plain(R[2])),
-         v |-> IF Ok THEN (IF Format = "cbor" THEN C!Image(R[2]) ELSE R[2]) ELSE <<"none">>,
+         pv |-> (Ok /\ Plain(IF TokMode = "sref" THEN C!ResolveStringRefs(R[2]) ELSE R[2])),
+         v |-> IF Ok THEN (IF Format = "cbor" THEN C!Image(IF TokMode = "sref" THEN C!ResolveStringRefs(R[2]) ELSE R[2]) ELSE R[2]) ELSE <<"none">>,
          used |-> IF Ok THEN R[3] - 1 ELSE 0]
 Emit == (bs # <<>> /\ (Ok \/ ~OnlyAccepted)) => PrintT(ToJson(Case))
 =============================================================================
